@@ -47,6 +47,9 @@ def run_case(case):
     h[f"T={mj['n_periods']}"] = 1
     h[f"filter_family={meta.get('filter_family')}"] = 1
     h[f"jit={jit}"] = 1
+    from pipeline import wf_hist
+
+    wf_hist(mj, h)
     for k in ("n_cs", "n_ds", "n_cc", "n_dc", "n_stoch", "n_constraints"):
         if k in meta:
             h[f"{k}={meta[k]}"] = 1
